@@ -76,15 +76,14 @@ def error_handler(error: bytearray, stage: str):
 def handle_state_step(tlv_dict, expected_state):
     actual_state = tlv_dict.get(TLV.kTLVType_State)
 
-    if actual_state is None:
-        # Some devices go against the spec and don't include kTLVType_State
-        # https://github.com/Jc2k/aiohomekit/issues/20
-        # iOS tolerates this, so we do do
-        return
-
-    if actual_state != expected_state:
+    # Some devices go against the spec and don't include kTLVType_State
+    # https://github.com/Jc2k/aiohomekit/issues/20
+    # iOS tolerates this, so we do do
+    if actual_state is not None and actual_state != expected_state:
         raise InvalidError(f"Exepected state {expected_state} but got {actual_state}")
 
+    # An error reported by the accessory always ends the step, also when
+    # the accessory left out kTLVType_State.
     if TLV.kTLVType_Error in tlv_dict:
         error_handler(tlv_dict[TLV.kTLVType_Error], f"step {expected_state}")
 
